@@ -352,7 +352,7 @@ def k_random(run, case):
         delta = rng.uniform(0.01, PI) if rng.random() < .9 else rng.uniform(PI, 4.0)
         if unit == "d":
             delta = delta * 180 / PI
-    rel_tol = [0.0, 0.01, 0.1, 0.5][rng.integers(4)]
+    rel_tol = [0.0, 0.01, 0.1, 0.5, 1.0, 1.6, 2.5][rng.integers(7)]  # (tolerances above 100 % are legal)
     if case.get("big") and unit in "rd":
         delta, rel_tol = rng.uniform(0.2, 2.5) * (180 / PI if unit == "d" else 1.0), [0.02, 0.1][rng.integers(2)]
     via = "metrics" if rng.random() < .6 else "filters"
